@@ -123,6 +123,25 @@ func hmacKey(pw []byte) [64]byte {
 
 func samePassword(a, b []byte) bool { return hmacKey(a) == hmacKey(b) }
 
+// normAddr reduces the canonical JSON of an address string to bare lower-case hex, so that
+// the spelling of the (non-standard) "address" member - 0x prefix, EIP-55 capitals - is not
+// what is judged, only which address it names.
+func normAddr(canonJSON string) string {
+	var s string
+	if json.Unmarshal([]byte(canonJSON), &s) != nil {
+		return canonJSON
+	}
+	s = strings.ToLower(s)
+	return strings.TrimPrefix(s, "0x")
+}
+
+func sameMember(key, got, want string, lenientAddr bool) bool {
+	if key == "address" && lenientAddr {
+		return normAddr(got) == normAddr(want)
+	}
+	return got == want
+}
+
 func validScalar(secret []byte) bool {
 	return len(secret) == 32 && secp.ValidScalar(new(big.Int).SetBytes(secret))
 }
@@ -134,7 +153,7 @@ func refAddress(secret []byte) string {
 
 // checkRead asserts clause (ii)/(iv): the library reads file with password to the
 // secret, its address, the id, version 3 and a metadata map that contains expect.
-func checkRead(prefix string, file, password, secret []byte, wantID string, expect map[string]string) (vs []evid.Violation, w keystorev3.WalletFile) {
+func checkRead(prefix string, file, password, secret []byte, wantID string, expect map[string]string, lenientAddr bool) (vs []evid.Violation, w keystorev3.WalletFile) {
 	w, err, pv := readLib(prefix+"-no-panic", file, password)
 	if pv != nil {
 		return []evid.Violation{*pv}, nil
@@ -168,7 +187,7 @@ func checkRead(prefix string, file, password, secret []byte, wantID string, expe
 			got, ok := md[k]
 			if !ok {
 				vs = append(vs, evid.V(prefix+"-metadata", "Metadata() lacks member %q (want %s)", k, expect[k]))
-			} else if canon(got) != expect[k] {
+			} else if !sameMember(k, canon(got), expect[k], lenientAddr) {
 				vs = append(vs, evid.V(prefix+"-metadata", "Metadata()[%q] = %s, want %s", k, canon(got), expect[k]))
 			}
 		}
@@ -347,12 +366,18 @@ func judgeLibFile(c LibFileCase) (vs []evid.Violation) {
 	}
 	var file []byte
 	var idBefore string
+	addrDefault := keypairCtor // the address member is the one the constructor wrote
+	for _, op := range c.Meta {
+		if op.Key == "address" {
+			addrDefault = false
+		}
+	}
 	if pv := evid.Guard("create-no-panic", func() {
 		if got := w.PrivateKey(); !bytes.Equal(got, secret) {
 			vs = append(vs, evid.V("create-key", "new wallet PrivateKey() = %x, want %x", got, secret))
 		}
 		if keypairCtor {
-			if got := canon(w.Metadata()["address"]); got != expect["address"] {
+			if got := canon(w.Metadata()["address"]); !sameMember("address", got, expect["address"], true) {
 				vs = append(vs, evid.V("create-address", "address metadata of a new wallet is %s, independent derivation gives %s", got, expect["address"]))
 			}
 		}
@@ -399,7 +424,7 @@ func judgeLibFile(c LibFileCase) (vs []evid.Violation) {
 		raw, ok := view.top[k]
 		if !ok {
 			vs = append(vs, evid.V("file-metadata", "member %q (= %s) is missing from the file", k, want))
-		} else if got, err := canonText(string(raw)); err != nil || got != want {
+		} else if got, err := canonText(string(raw)); err != nil || !sameMember(k, got, want, addrDefault) {
 			vs = append(vs, evid.V("file-metadata", "member %q of the file is %s, want %s", k, raw, want))
 		}
 	}
@@ -418,7 +443,7 @@ func judgeLibFile(c LibFileCase) (vs []evid.Violation) {
 	vs = append(vs, registerFresh(view)...)
 
 	// (ii) the library reads its own file
-	rvs, w2 := checkRead("roundtrip", file, pwBytes, secret, view.id, expect)
+	rvs, w2 := checkRead("roundtrip", file, pwBytes, secret, view.id, expect, addrDefault)
 	vs = append(vs, rvs...)
 	if w2 != nil && len(rvs) == 0 {
 		// a wallet that was read and written again is still the same V3 document for a second implementation
@@ -516,7 +541,7 @@ func judgeExtFile(c ExtFileCase) (vs []evid.Violation) {
 		return []evid.Violation{evid.V("harness", "reference reader does not read the reference writer's file: %v", err)}
 	}
 	// (iv) standard files produced elsewhere are read correctly
-	rvs, w := checkRead("external", file, s.Password, s.Secret, c.ID, expect)
+	rvs, w := checkRead("external", file, s.Password, s.Secret, c.ID, expect, false)
 	vs = append(vs, rvs...)
 	if w != nil && len(rvs) == 0 {
 		var again []byte
